@@ -252,7 +252,14 @@ func c02(c *Ctx) {
 					nm = engine.ShortName(sc)
 				}
 				if nm != "QueueOrApplyStateUpdate" && nm != "queueStateUpdate" {
-					continue
+					// a helper of the package that broadcasts its []Update parameter on every path (empty list excepted)
+					sc := cc.StaticCallee()
+					if sc == nil || len(cc.Args) == 0 {
+						continue
+					}
+					if idx, ok := broadcastsParam(sc); !ok || idx != len(cc.Args)-1 {
+						continue
+					}
 				}
 				last := cc.Args[len(cc.Args)-1]
 				fromCell := engine.AnyBackward(last, engine.FlowOpts{Loads: true}, func(v ssa.Value) bool {
@@ -326,7 +333,29 @@ func c02(c *Ctx) {
 		}
 		bad := false
 		for _, ret := range engine.Returns(f) {
-			if !engine.IsNilConst(engine.LastResult(ret)) {
+			lr := engine.LastResult(ret)
+			if !engine.IsNilConst(lr) {
+				// `return err` where err was tested: the paths that took the nil edge of that test are success paths
+				for _, b := range f.Blocks {
+					iff := engine.IfOf(b)
+					if iff == nil {
+						continue
+					}
+					cmp, ok := iff.Cond.(*ssa.BinOp)
+					if !ok || (cmp.Op != token.EQL && cmp.Op != token.NEQ) {
+						continue
+					}
+					if !((cmp.X == lr && engine.IsNilConst(cmp.Y)) || (cmp.Y == lr && engine.IsNilConst(cmp.X))) {
+						continue
+					}
+					nilIx := 0
+					if cmp.Op == token.NEQ {
+						nilIx = 1
+					}
+					if engine.ReachesAvoidingFrom(b.Succs[nilIx], 0, ret, cut, skip) {
+						bad = true
+					}
+				}
 				continue
 			}
 			if engine.ReachesAvoiding(f, ret, cut, skip) {
@@ -632,4 +661,72 @@ func c02filters(c *Ctx) {
 			"this filter decides on "+bad+" alone, but a message can be pending in State.res (queued EXISTS): an update for such a message (e.g. its expunge) is dropped and the session keeps a message that no longer exists")
 	}
 	R.Min("R02.3", "Filter implementations", n, 5)
+}
+
+// broadcastsParam: fn hands its last parameter (a slice of state updates) to queueStateUpdate /
+// QueueOrApplyStateUpdate on every path to a return, except along the edge on which the slice is empty.
+func broadcastsParam(fn *ssa.Function) (int, bool) {
+	if len(fn.Blocks) == 0 || fn.Parent() != nil || len(fn.Params) == 0 {
+		return 0, false
+	}
+	idx := len(fn.Params) - 1
+	p := fn.Params[idx]
+	if _, isSlice := p.Type().Underlying().(*types.Slice); !isSlice {
+		return 0, false
+	}
+	cut := map[ssa.Instruction]bool{}
+	for _, cs := range engine.Calls(fn) {
+		if cs.Instr.Parent() != fn {
+			continue
+		}
+		cc := cs.Common()
+		nm := ""
+		if cc.IsInvoke() {
+			nm = cc.Method.Name()
+		} else if sc := cc.StaticCallee(); sc != nil {
+			nm = engine.ShortName(sc)
+		}
+		if (nm == "QueueOrApplyStateUpdate" || nm == "queueStateUpdate") && len(cc.Args) > 0 {
+			if engine.AnyBackward(cc.Args[len(cc.Args)-1], engine.FlowOpts{}, func(v ssa.Value) bool { return v == ssa.Value(p) }) {
+				cut[cs.Instr] = true
+			}
+		}
+	}
+	if len(cut) == 0 {
+		return 0, false
+	}
+	skip := map[engine.Edge]bool{}
+	for _, b := range fn.Blocks {
+		iff := engine.IfOf(b)
+		if iff == nil {
+			continue
+		}
+		cmp, ok := iff.Cond.(*ssa.BinOp)
+		if !ok {
+			continue
+		}
+		call, ok := cmp.X.(*ssa.Call)
+		if !ok {
+			continue
+		}
+		bi, ok := call.Call.Value.(*ssa.Builtin)
+		if !ok || bi.Name() != "len" || call.Call.Args[0] != ssa.Value(p) {
+			continue
+		}
+		if k, ok := cmp.Y.(*ssa.Const); !ok || k.Value == nil || k.Value.ExactString() != "0" {
+			continue
+		}
+		switch cmp.Op.String() {
+		case "!=", ">":
+			skip[engine.Edge{From: b, Succ: 1}] = true
+		case "==":
+			skip[engine.Edge{From: b, Succ: 0}] = true
+		}
+	}
+	for _, ret := range engine.Returns(fn) {
+		if engine.ReachesAvoiding(fn, ret, cut, skip) {
+			return 0, false
+		}
+	}
+	return idx, true
 }
